@@ -14,6 +14,7 @@ func init() { register("C05", checkC05) }
 
 func checkC05(c *Ctx) {
 	c.Explanation = "Decides the structural core of identity: (O1) scopes and the four metric kinds are created by get-or-create under the write lock on the miss edge of a re-check with the same key value and the same shard value as the insertion (shared with C09), the read-locked probe and the insert use keys produced by the same canonical writer; (O2) the key writer is independent of map iteration order: every range over a map only collects keys, the collected keys are sorted before they are read, values are fetched by key; (O3) delimiter injection: every variable component appended to the key buffer must be escaped or length-prefixed, and the pair separator's emission must depend on the position only, never on the content of a component - necessary for the injectivity of prefix+k=v,k=v; (O4) KeyForStringMap / KeyForPrefixedStringMap and the registry reach the same writer, with the rightmost map taking precedence (C04 O3)."
+	c.Explanation += " Added by round 9: (O3 separator-emission:first-key) a duplicate test against a previous key that starts out empty is behind a position test; (O1 shard-map-fixed, shared with C07) the shard table is never replaced."
 	c.NotDecided = []string{"injectivity as a theorem about all strings (O3 is its structural core)", "pointer identity for concrete pairs of derivations"}
 	eng := c.newLockEngine()
 	c.checkDoubleChecked("O1 get-or-create", eng)
